@@ -78,6 +78,72 @@ pub fn gen_env(r: &mut Rng) -> EnvDesc {
 
 fn lit(v: V) -> E { E::Literal { value: v } }
 fn bx(e: E) -> Box<E> { Box::new(e) }
+
+/// a value that is `==` to `v` under the language's coercing equality but is NOT the same value (other kind, other zero sign):
+/// what a cache keyed by `Value`'s `Eq`/`Hash`, or a "skip if unchanged" shortcut, confuses with `v`
+pub fn loosen_val(r: &mut Rng, v: &V) -> V {
+    match v {
+        V::Number(x) if *x == 0.0 => match r.below(4) { 0 => V::Number(if x.is_sign_negative() { 0.0 } else { -0.0 }), 1 => V::Boolean(false), 2 => V::String("0".into()), _ => V::String("-0".into()) },
+        V::Number(x) if *x == 1.0 => match r.below(3) { 0 => V::Boolean(true), 1 => V::String("1".into()), _ => V::String("1.0".into()) },
+        V::Number(x) if x.is_nan() => V::Number(*x),
+        V::Number(x) => V::String(format!("{}", x)),
+        V::Boolean(b) => V::Number(if *b { 1.0 } else { 0.0 }),
+        V::String(s) => match s.parse::<f64>() { Ok(x) if !x.is_nan() => V::Number(x), _ => V::String(s.clone()) },
+        V::Array(a) => V::Array(a.iter().map(|x| loosen_val(r, x)).collect()),
+    }
+}
+/// the same tree with every literal replaced by a loosely equal one
+pub fn loosen_expr(r: &mut Rng, e: &E) -> E {
+    match e {
+        E::Literal { value } => lit(loosen_val(r, value)),
+        E::Unary { right, operator } => E::Unary { right: bx(loosen_expr(r, right)), operator: *operator },
+        E::Binary { left, right, operator } => E::Binary { left: bx(loosen_expr(r, left)), right: bx(loosen_expr(r, right)), operator: *operator },
+        E::Ternary { left, middle, right, operator } => E::Ternary { left: bx(loosen_expr(r, left)), middle: bx(loosen_expr(r, middle)), right: bx(loosen_expr(r, right)), operator: *operator },
+        E::Array { expressions } => E::Array { expressions: expressions.iter().map(|x| loosen_expr(r, x)).collect() },
+        E::Call { name, params } => E::Call { name: name.clone(), params: params.iter().map(|x| loosen_expr(r, x)).collect() },
+        other => other.clone(),
+    }
+}
+/// repeat sub-trees inside one tree: the same operand on both sides of an operator (`x and x`), the same call twice in one list, and
+/// look-alike copies whose literals are only loosely equal (`f(1)` next to `f(true)`).  Shortcuts for "identical operands" and caches
+/// that live for one `execute` only show on such trees.
+pub fn add_repeats(r: &mut Rng, e: &mut E) {
+    match e {
+        E::Unary { right, .. } => add_repeats(r, right),
+        E::Binary { left, right, .. } => {
+            add_repeats(r, left);
+            if r.chance(1, 4) { **right = if r.chance(1, 2) { (**left).clone() } else { loosen_expr(r, left) }; } else { add_repeats(r, right); }
+        }
+        E::Ternary { left, middle, right, .. } => { add_repeats(r, left); add_repeats(r, middle);
+            if r.chance(1, 5) { **right = if r.chance(1, 2) { (**middle).clone() } else { loosen_expr(r, middle) }; } else { add_repeats(r, right); } }
+        E::Array { expressions } | E::Call { params: expressions, .. } => {
+            for x in expressions.iter_mut() { add_repeats(r, x); }
+            if !expressions.is_empty() && expressions.len() < 6 && r.chance(1, 3) {
+                let k = r.usize(expressions.len()); let c = if r.chance(1, 2) { expressions[k].clone() } else { loosen_expr(r, &expressions[k]) };
+                let at = r.usize(expressions.len() + 1); expressions.insert(at, c);
+            }
+        }
+        _ => {}
+    }
+}
+/// WIDE trees: one list / argument list of `n` small elements.  `kind` 0..: elements that fail with an undefined variable and are
+/// recovered by the enclosing operator (`u = ''`, `u or true`, `-u = ''`, `[u] = 1`, `cnt(u) <> 1`, a conditional on `u = 1`) - per-node
+/// bookkeeping that is not undone on the error path adds up here; constant elements `1 + 1` - the tree is large but folds to a small one.
+pub fn gen_wide_tree(r: &mut Rng, n: usize, kind: u64) -> E {
+    let u = || E::Variable { name: "nope_undefined".into() };
+    let elem = |i: usize| -> E { match kind {
+        0 => E::Binary { left: bx(u()), right: bx(lit(V::String(String::new()))), operator: O::Equal },
+        1 => E::Binary { left: bx(u()), right: bx(lit(V::Boolean(true))), operator: O::Or },
+        2 => E::Binary { left: bx(E::Unary { right: bx(u()), operator: O::Minus }), right: bx(lit(V::String(String::new()))), operator: O::Equal },
+        3 => E::Binary { left: bx(E::Array { expressions: vec![lit(V::Number(1.0)), u()] }), right: bx(lit(V::Number(1.0))), operator: O::NotEqual },
+        4 => E::Binary { left: bx(E::Call { name: "cnt".into(), params: vec![u()] }), right: bx(lit(V::Number(1.0))), operator: O::NotEqual },
+        5 => E::Binary { left: bx(lit(V::Boolean(true))), right: bx(E::Ternary { left: bx(u()), middle: bx(lit(V::Number(1.0))), right: bx(lit(V::Number(2.0))), operator: O::TernaryCondition }), operator: O::And },
+        6 => E::Binary { left: bx(lit(V::Number(1.0))), right: bx(lit(V::Number(i as f64))), operator: O::Plus },
+        _ => E::Binary { left: bx(E::Variable { name: "a".into() }), right: bx(lit(V::Number(1.0))), operator: O::Plus },
+    } };
+    let items: Vec<E> = (0..n).map(elem).collect();
+    if r.chance(1, 3) { E::Call { name: "cnt".into(), params: items } } else { E::Array { expressions: items } }
+}
 pub const UNOPS: [O; 2] = [O::Minus, O::Not];
 pub const BINOPS: [O; 15] = [O::Plus, O::Minus, O::Multiply, O::Divide, O::Greater, O::GreaterEqual, O::Less, O::LessEqual,
     O::Equal, O::NotEqual, O::And, O::Or, O::Xor, O::Div, O::Mod];
@@ -153,7 +219,7 @@ pub fn table_len() -> usize { let n = operand_pool().len(); 17 * n * n + 17 * n 
 /// nested calls, nested if_then calls, or a mix) ending in a leaf that matters to the tree functions: a non-Boolean literal, an undefined
 /// variable, an unknown function, an impure call, a NaN. Depth guards, recursion limits and "give up below level N" shortcuts show here.
 pub fn gen_spine_tree(r: &mut Rng, depth: u32) -> E {
-    let shape = r.below(10);
+    let shape = r.below(12);
     let leaf = match r.below(8) { 0 => lit(V::Number(42.0)), 1 => lit(V::Boolean(r.chance(1, 2))), 2 => E::Variable { name: "nope_undefined".into() },
         3 => E::Call { name: "nofn".into(), params: vec![] }, 4 => lit(V::Array(vec![V::Number(1.0)])), 5 => lit(V::String("s".into())),
         6 => E::Call { name: { let n = *r.pick(FN_NAMES); n.to_string() }, params: vec![lit(V::Number(1.0))] }, _ => gen_tree(r, 1, false) };
@@ -164,6 +230,17 @@ pub fn gen_spine_tree(r: &mut Rng, depth: u32) -> E {
         let side = |r: &mut Rng| -> E { match r.below(4) { 0 => lit(V::Boolean(true)), 1 => lit(V::Boolean(false)), 2 => lit(V::Number(1.0)), _ => E::Variable { name: (*r.pick(&["a", "T", "x"])).to_string() } } };
         let cond = |_r: &mut Rng, want: bool| -> E { if cond_lit { lit(V::Boolean(want)) } else { E::Variable { name: (if want { "T" } else { "F" }).to_string() } } };
         let k = if shape == 9 { r.below(9) } else { shape };
+        // shapes 10, 11: TWO node kinds alternating along the left spine, the inner one with an undefined variable (or a failing call) as its
+        // right operand, the outer one an operator that absorbs or compares it: work that is repeated per level multiplies along this spine
+        if k >= 10 {
+            let inner_op = *r.pick(&[O::Plus, O::Minus, O::Multiply, O::Less, O::Xor]);
+            let outer_op = *r.pick(&[O::NotEqual, O::Equal, O::And, O::Or]);
+            let bad = if k == 10 { E::Variable { name: "nope_undefined".into() } } else { E::Call { name: "bad".into(), params: vec![] } };
+            let zero = lit(V::Number(0.0));
+            e = if r.chance(1, 2) { E::Binary { left: bx(E::Binary { left: bx(e), right: bx(bad), operator: inner_op }), right: bx(zero), operator: outer_op } }
+                else { E::Binary { left: bx(zero), right: bx(E::Binary { left: bx(bad), right: bx(e), operator: inner_op }), operator: outer_op } };
+            continue;
+        }
         e = match k {
             0 => E::Unary { right: bx(e), operator: O::Not },
             1 => E::Unary { right: bx(e), operator: O::Minus },
